@@ -81,6 +81,10 @@ def ledger(cq, ct):
     return {"name": "S-abi:compatibility ledger histories", Q: ["ledger", "--cases", str(cq)], T: ["ledger", "--cases", str(ct)], "seeds_t": 4}
 
 
+def smem(cq, ct):
+    return {"name": "S-layout:memory of values vs the image their schema prescribes", Q: ["smem", "--cases", str(cq)], T: ["smem", "--cases", str(ct), "--size", "30"], "seeds_t": 3}
+
+
 PROPS = {
     "C01": {
         "module": "Sfv.Props.C01",
@@ -106,6 +110,12 @@ PROPS = {
         "tables": ["tables_prim_widths"],
         "suites": [xver(6, 40), codec(3, 15, filt="Fam"), codec(3, 15, filt="Ver"), PACKED],
         "oracle": ["C18"],
+    },
+    "C11": {
+        "module": "Sfv.Props.C11",
+        "tables": [],
+        "suites": [smem(4, 20), schemas(3, 12), abiconn(1500, 6000), abicall(4, 20)],
+        "oracle": ["C11"],
     },
     "C10": {
         "module": "Sfv.Props.C10",
